@@ -5,6 +5,7 @@ fail (invalid hyper-parameter, malformed data) and calls interrupted by an injec
 evaluation k, kernel call k).  After every completed fit / fit_predict / path the fitted state is compared BITWISE with a
 reference execution: a fresh estimator built from the hyper-parameters the user set, run once on a private copy of the data."""
 import copy
+import os
 
 import numpy as np
 
@@ -127,7 +128,8 @@ def generate(rng):
         kinds += [("path", 2.5), ("crash_path", 1), ("nan_path", 1)]
     ops = []
     last_ds = None
-    for _ in range(rng.randint(1, 8) if rng.random() < 0.9 else rng.randint(8, 14)):
+    deep = os.environ.get("GEMSIM_TIER") == "thorough"      # the thorough tier explores longer histories
+    for _ in range(rng.randint(1, 8) if rng.random() < (0.7 if deep else 0.9) else rng.randint(8, 24 if deep else 14)):
         k = weighted(rng, kinds)
         if ops and ops[-1]["op"] in ("set_params", "mutate_data", "crash_fit", "malformed_fit") and last_ds is not None and rng.random() < 0.5:
             k = "fit"          # the classic sequence: change something, then fit the SAME array object again
